@@ -89,6 +89,8 @@ func (r *Run) Execute() Outcome {
 	keys := map[string]bool{}
 	intents := map[int]kv.Op{}
 	acked := map[int]bool{}
+	var adminLast, adminInflight *AdminState
+	adminKind := ""
 	sc := bufio.NewScanner(stdout)
 	sc.Buffer(make([]byte, 1<<22), 1<<22)
 	idle := make(chan struct{}, 1)
@@ -123,6 +125,20 @@ func (r *Run) Execute() Outcome {
 						out.MaxAckCas = c
 					}
 				}
+			case "AINTENT":
+				var l AdminLine
+				if json.Unmarshal([]byte(body), &l) == nil {
+					st := l.After
+					adminInflight, adminKind = &st, l.Kind
+				}
+			case "AACK":
+				var l AdminLine
+				if json.Unmarshal([]byte(body), &l) == nil {
+					st := l.After
+					adminLast, adminInflight = &st, nil
+				}
+			case "AFAIL":
+				adminInflight = nil
 			case "EXTRACAS":
 				var o struct{ Cas uint64 }
 				_ = json.Unmarshal([]byte(body), &o)
@@ -211,15 +227,61 @@ func (r *Run) Execute() Outcome {
 	if rd.UUID != out.UUID {
 		out.Problems = append(out.Problems, fmt.Sprintf("uuid|UUID changed across reopen: %s -> %s", out.UUID, rd.UUID))
 	}
-	wantColls := 3
-	if r.Writer.DropY {
-		wantColls = 2
+	// collections and design documents: the state after the last acknowledged admin call, or (entirely) after the one in flight
+	base := AdminState{DDocs: map[string]string{"cd": ddocJSON(crashViews)}, Colls: []string{}}
+	for ci := 0; ci < 3; ci++ {
+		if ci == 2 && r.Writer.DropY {
+			continue
+		}
+		base.Colls = append(base.Colls, kv.CollNames[ci].ScopeName()+"."+kv.CollNames[ci].CollectionName())
 	}
-	if len(rd.Colls) != wantColls {
-		out.Problems = append(out.Problems, fmt.Sprintf("collections|reopened bucket lists %v, want %d collections", rd.Colls, wantColls))
+	if adminLast != nil {
+		base = *adminLast
 	}
-	if len(rd.DDocs) != 1 || rd.DDocs[0] != "cd" {
-		out.Problems = append(out.Problems, fmt.Sprintf("ddocs|design documents after reopen: %v, want [cd]", rd.DDocs))
+	dropFilter := func(st *AdminState) {
+		if !r.Writer.DropY {
+			return
+		}
+		dropped := kv.CollNames[2].ScopeName() + "." + kv.CollNames[2].CollectionName()
+		var keep []string
+		for _, c := range st.Colls {
+			if c != dropped {
+				keep = append(keep, c)
+			}
+		}
+		st.Colls = keep
+	}
+	dropFilter(&base)
+	if adminInflight != nil {
+		dropFilter(adminInflight)
+	}
+	got := AdminState{DDocs: rd.DDocDefs, Colls: append([]string(nil), rd.Colls...)}
+	sort.Strings(got.Colls)
+	sort.Strings(base.Colls)
+	same := func(a, b AdminState) bool {
+		if strings.Join(a.Colls, ",") != strings.Join(b.Colls, ",") || len(a.DDocs) != len(b.DDocs) {
+			return false
+		}
+		for k, v := range a.DDocs {
+			if b.DDocs[k] != v {
+				return false
+			}
+		}
+		return true
+	}
+	if !same(got, base) {
+		ok := false
+		if adminInflight != nil {
+			sort.Strings(adminInflight.Colls)
+			ok = same(got, *adminInflight)
+		}
+		if !ok {
+			what := "the last acknowledged admin call left"
+			if adminInflight != nil {
+				what += " (nor what the interrupted " + adminKind + " would have left)"
+			}
+			out.Problems = append(out.Problems, fmt.Sprintf("admin-state|after %s the reopened bucket has collections %v and design documents %v, which is not what %s: collections %v, design documents %v", out.KillDesc, got.Colls, keysOf(got.DDocs), what, base.Colls, keysOf(base.DDocs)))
+		}
 	}
 	// ---- durability of acknowledged calls, atomicity of the in-flight one
 	out.Applied = "n/a"
@@ -358,4 +420,13 @@ func firstLine(s string) string {
 		return s[:i]
 	}
 	return s
+}
+
+func keysOf(m map[string]string) []string {
+	ks := make([]string, 0, len(m))
+	for k, v := range m {
+		ks = append(ks, k+"="+fmt.Sprint(len(v)))
+	}
+	sort.Strings(ks)
+	return ks
 }
